@@ -105,3 +105,6 @@ pub use crate::map::HashMap;
 pub use crate::set::HashSet;
 
 pub use hashbrown::TryReserveError;
+
+#[cfg(feature = "verif-hooks")]
+pub use crate::raw::VerifState;
